@@ -455,6 +455,10 @@ class Spec:
                     if k2 not in defs:
                         defs.add(k2)
                         st.pc.append(nm == orig)
+                    gd = getattr(ex, 'arrdef_eqs', None)
+                    if gd is None:
+                        gd = ex.arrdef_eqs = {}
+                    gd[nm.decl().name()] = (nm == orig)
         try:
             walk(body)
         except z3.Z3Exception:
